@@ -2,12 +2,13 @@
 shapely's WKT / WKB serialisers.  The models only *record* what the real code hands to the library; the obligations of
 C15 are stated over those records together with the stated loss-free conditions of each library call:
 
-  GEOJSON-POLYGON     geojson.Polygon(coords, precision=p) rounds every coordinate to p decimals (default 6);
-                      the binary64 value survives only for p >= 15 significant decimals of the stored text -> we demand p >= 17
-                      or no rounding at all (validated natively by harness/native/C15.py on awkward doubles).
+  GEOJSON-POLYGON     geojson.Polygon(coords, precision=p) rounds every coordinate to p decimal places (default 6); the binary64
+                      value survives for every coordinate of magnitude >= 1e-23 only when p >= 40 (validated natively by
+                      harness/native/C15.py on awkward doubles and on coordinates of small magnitude).
   PYSHP-FIELD-TRUNCATE  Writer.field(name) keeps name[:10] (dbf field names are 10 bytes); Writer.record(*values) stores
                       values by field position, Writer.record(**kw) stores kw[field name] for each *stored* field name, '' when absent.
-  SHAPELY-TO-WKT      shapely.to_wkt(g, rounding_precision=r) is loss free only for r == -1 (full precision); the default is 6.
+  SHAPELY-TO-WKT      shapely.to_wkt(g, rounding_precision=r): the default 6 rounds; -1 writes 16 significant digits (one double in ten
+                      comes back one unit in the last place off); r >= 20 writes the shortest exact representation (GEOS 3.13, validated natively).
   SHAPELY-TO-WKB      shapely.to_wkb(g) stores binary64 coordinates unchanged.
 """
 from __future__ import annotations
@@ -60,6 +61,8 @@ class ShpWriter(NullCM):
         if not isinstance(name, str):
             raise Unsupported('symbolic shapefile field name')
         self.fields.append(name[:10])
+        self.sizes = getattr(self, 'sizes', {})
+        self.sizes[name[:10]] = (field_type, size, decimal)        # PYSHP-FIELD-SIZE: a value wider than `size` characters is cut silently
         core.ctx().event('shp.field', self, name[:10], field_type)
 
     def record(self, *values, **named):
